@@ -22,7 +22,15 @@ def _labels(ctx, shape, str_labels=False, tag=""):
     el = [ctx.label(f"{tag}e{j}", group=f"{tag}e") for j in range(M)]
     ctx.distinct(nl)
     ctx.distinct(el)
-    if str_labels:
+    if str_labels == "tuple":
+        # tuple labels (admissible ids: update_uid_counter names them, rename="tuple" makes them)
+        if nl:
+            nl[0] = (f"{tag}tn", 0)
+        if el:
+            el[0] = (0, 1)
+        if len(el) > 1:
+            el[1] = f"{tag}edge-s"
+    elif str_labels:
         if nl:
             nl[0] = f"{tag}node-s"
         if el:
@@ -34,7 +42,7 @@ def _counter(ctx, el, fresh=True, tag=""):
     c = ctx.label(f"{tag}c")
     conds = [c >= 0]
     if fresh:
-        conds += [c > e for e in el if not isinstance(e, str)]
+        conds += [c > e for e in el if not isinstance(e, (str, tuple))]
     ctx.assume(*conds)
     return c
 
